@@ -15,6 +15,7 @@ import Driver.Format
 import Driver.LocalFS
 import Driver.SymSession
 import Driver.CacheFS
+import Driver.RepoListing
 open Lean
 
 /-- one handler file per model (Driver/<Model>.lean); the request prefix selects it -/
@@ -39,6 +40,7 @@ def dispatch (j : Json) : Except String Json := do
   else if op.startsWith "localfs." then Driver.handleLocalFS op j
   else if op.startsWith "symsess." then Driver.handleSymSession op j
   else if op.startsWith "cachefs." then Driver.handleCacheFS op j
+  else if op.startsWith "repolist." then Driver.handleRepoListing op j
   else throw s!"unknown op {op}"
 
 partial def loop (h : IO.FS.Stream) (out : IO.FS.Stream) : IO Unit := do
